@@ -266,6 +266,8 @@ func runApp(c appCase) (res AppRun) {
 		}
 		res.AppOut = appOut.String()
 	}()
+	// every invocation of the tool starts with freshly initialised package-level variables
+	verifshim.ResetPackageState()
 	if verifshim.PermHook == nil && !c.SortedMaps {
 		verifshim.PermHook = reversePerm
 		defer func() { verifshim.PermHook = nil }()
